@@ -474,7 +474,7 @@ c15_collusion_harness!(c15_collusion_contract_4, 8, 4);
 c15_collusion_harness!(c15_collusion_contract_5, 9, 5);
 // @verif property=C15 class=bounded bound="6 witnesses, all latencies" fns=CloseGroupValidator::detect_collusion_indicators uses=check_collusion,any_responses,any_response,mk_validator,any_cfg,c15_collusion_harness tier=thorough panic=violation
 c15_collusion_harness!(c15_collusion_contract_6, 10, 6);
-// @verif property=C15 class=bounded bound="7 witnesses, all latencies" fns=CloseGroupValidator::detect_collusion_indicators uses=check_collusion,any_responses,any_response,mk_validator,any_cfg,c15_collusion_harness tier=thorough panic=violation
+// @verif property=C15 class=bounded bound="7 witnesses, all latencies" fns=CloseGroupValidator::detect_collusion_indicators uses=check_collusion,any_responses,any_response,mk_validator,any_cfg,c15_collusion_harness tier=parked panic=violation
 c15_collusion_harness!(c15_collusion_contract_7, 11, 7);
 
 // ---- MaintenanceConfig quorum arithmetic --------------------------------------------------
